@@ -2,7 +2,7 @@ import WK.Prelude.Drv
 import WK.Spec.C21
 /-
   C21 driver.  op:  `hs <hexkey> <count>`
-  impl/model out:   `<router> <table> <bench> <node> <crcRouter> <crcStd>`
+  impl/model out:   `<router> <table> <bench> <node> <crcRouter> <crcStd> <lifecycleBench> <slotProxy(node)>`
   judge (the property itself): the four mappings agree, are below the count
   (count ≥ 1), and the two checksums agree.
 -/
@@ -37,11 +37,11 @@ def c21Step (_ : Unit) (op impl : String) : Unit × String × String :=
       let bs := key.map (fun b => BitVec.ofNat 8 b.toNat)
       let crc := specCrc32 bs
       let h := (specHashSlot bs (BitVec.ofNat 16 cnt)).toNat
-      let m := s!"{h} {h} {h} {h} {crc.toNat} {crc.toNat}"
+      let m := s!"{h} {h} {h} {h} {crc.toNat} {crc.toNat} {h} {h}"
       let verdict :=
         match (fields impl).map String.toNat? with
-        | [some r, some t, some b, some n, some c1, some c2] =>
-          if r ≠ t ∨ r ≠ b ∨ r ≠ n then "viol:mappings-disagree"
+        | [some r, some t, some b, some n, some c1, some c2, some lc, some px] =>
+          if r ≠ t ∨ r ≠ b ∨ r ≠ n ∨ r ≠ lc ∨ r ≠ px then "viol:mappings-disagree"
           else if cnt > 0 ∧ ¬ (r < cnt) then "viol:not-below-count"
           else if c1 ≠ c2 then "viol:checksums-disagree"
           else "ok"
